@@ -116,7 +116,14 @@ impl<W: Write + Seek> Mp4Writer<W> {
 
     fn update_mdat_size(&mut self) -> Result<()> {
         let mdat_end = self.writer.stream_position()?;
-        let mdat_size = mdat_end - self.mdat_pos;
+        // The sink is not ours alone (it may be a shared handle): do not trust that it is
+        // still positioned behind the mdat and wide headers written by write_start.
+        let mdat_size = mdat_end
+            .checked_sub(self.mdat_pos)
+            .filter(|size| *size >= 2 * HEADER_SIZE)
+            .ok_or(Error::InvalidData(
+                "stream is positioned before the end of the mdat header",
+            ))?;
         if mdat_size > std::u32::MAX as u64 {
             self.writer.seek(SeekFrom::Start(self.mdat_pos))?;
             self.writer.write_u32::<BigEndian>(1)?;
